@@ -47,22 +47,115 @@ def generate(gen, tier):
             to = np_dt.index(np.result_type(*[np_dt[a[2]] for a in arrs]).type)
         lines = [op('ravel', to, 6, *arrs)]
         cases.append({'lines': lines, 'o': {'arrs': render(arrs), 'nest': rng.randrange(3)}})
+    # values that do not fit the narrowest dtype of the tree, weakly typed leaves (oracle only: no model lines)
+    for _ in range(60 if tier == 'quick' else 1500):
+        cases.append({'lines': [], 'o': {'wide': rng.randrange(10**9)}})
     return cases
 
 
 def nontrivial(case):
+    if 'wide' in case['o']:
+        return True
     return len(parse(case['o']['arrs'])) >= 2
 
 
 def distribution(cases):
     ranks, dtypes, zero = {}, {}, 0
+    n_wide = sum(1 for c in cases if 'wide' in c['o'])
+    cases = [c for c in cases if 'wide' not in c['o']]
     for c in cases:
         for a in parse(c['o']['arrs']):
             r = len(a[1])
             ranks[r] = ranks.get(r, 0) + 1
             dtypes[DT[int(a[2])]] = dtypes.get(DT[int(a[2])], 0) + 1
             zero += any(int(x) == 0 for x in a[1])
-    return {'ranks': ranks, 'dtypes': dtypes, 'zero_size_leaves': zero}
+    return {'ranks': ranks, 'dtypes': dtypes, 'zero_size_leaves': zero, 'wide_value_cases': n_wide}
+
+
+def _wide(o):
+    """trees mixing narrow dtypes with values that only fit the wider ones, Python scalars and (jax) weakly typed
+    arrays: the round trip must preserve every value and dtype, the flat vector must hold the leaf values"""
+    import random
+    import warnings
+    import numpy as np
+    import optree
+    rng = random.Random(o['wide'])
+    fails = []
+    narrow_int = [np.int8, np.uint8, np.int16]
+    narrow_flt = [np.float16, np.float32]
+
+    cat = rng.choice(['int', 'float'])
+
+    def np_leaves():
+        # one category per tree: JAX and PyTorch promote an integer next to a float16 to float16 (values may not fit:
+        # that is the backend's promotion rule, not a conversion error)
+        kind = cat
+        out = []
+        if kind in ('int', 'mixed'):
+            out.append(np.array([rng.randrange(-5, 6) for _ in range(rng.choice([1, 2, 3]))], dtype=rng.choice(narrow_int[:1] + narrow_int[2:])))
+            out.append(np.array(rng.choice([1000, -3000, 70000, 300]), dtype=rng.choice([np.int32, np.int64])))
+        if kind in ('float', 'mixed'):
+            out.append(np.array([0.5, -1.25][:rng.choice([1, 2])], dtype=rng.choice(narrow_flt)))
+            out.append(np.array(rng.choice([0.1, 1e6 + 0.5, 65537.0]), dtype=np.float64 if rng.random() < 0.5 else np.float32))
+        rng.shuffle(out)
+        return out
+
+    def vals(x):
+        return [complex(v) for v in np.ravel(np.asarray(x)).tolist()]
+
+    def check(name, ravel, tree, to_np, canon=None):
+        canon = canon or to_np
+        with warnings.catch_warnings():
+            warnings.simplefilter('ignore')
+            try:
+                flat, unravel = ravel(tree)
+                back = unravel(flat)
+            except Exception as e:  # noqa: BLE001
+                fails.append({'key': f'{name}-wide-raises', 'what': f'{name}: tree_ravel / unravel raised {type(e).__name__}: {e}', 'tree': repr(tree)[:200]})
+                return
+            order = optree.tree_leaves(tree)
+            want = [v for x in order for v in vals(canon(x))]
+            got = vals(to_np(flat))
+            if got != want:
+                fails.append({'key': f'{name}-wide-flat-values', 'what': f'{name}: the flat array does not hold the values of the leaves (a value was narrowed)',
+                              'tree': repr(tree)[:200], 'flat': repr(got)[:200]})
+            for i, (x, y) in enumerate(zip(optree.tree_leaves(back), order)):
+                xn, yn = to_np(x), canon(y)
+                if vals(xn) != vals(yn) or xn.shape != np.asarray(yn).shape or (hasattr(y, 'dtype') and xn.dtype != yn.dtype):
+                    fails.append({'key': f'{name}-wide-roundtrip', 'what': f'{name}: leaf {i} of unravel(ravel(t)) differs from the original (values / shape / dtype)',
+                                  'tree': repr(tree)[:200], 'got': repr(xn)[:100], 'want': repr(yn)[:100]})
+                    break
+    leaves = np_leaves()
+    from optree.integration import numpy as onp
+    check('numpy', onp.tree_ravel, {'a': leaves[0], 'b': tuple(leaves[1:])}, np.asarray)
+    try:
+        import torch
+        from optree.integration import torch as otorch
+        tl = [torch.from_numpy(np.ascontiguousarray(a)) for a in leaves if a.dtype != np.uint16]
+        check('torch', otorch.tree_ravel, [tl[0], {'k': tl[1:]}], lambda t: t.numpy())
+    except ImportError:
+        pass
+    try:
+        import jax
+        import jax.numpy as jnp
+        from optree.integration import jax as ojax
+        x64 = bool(jax.config.jax_enable_x64)
+        jl = [jnp.asarray(a) for a in leaves if x64 or a.dtype not in (np.int64, np.float64)]
+        # weakly typed leaves: arrays made from Python scalars without a dtype, and bare Python scalars
+        if cat == 'int':
+            weak = [jnp.asarray(rng.choice([1000, 300, -3000])), rng.choice([1000, 70000]), jnp.full((2,), 300)]
+            narrow = jnp.asarray(np.array([1, -2, 3], dtype=rng.choice([np.int8, np.int16])))
+        else:
+            weak = [jnp.asarray(rng.choice([0.1, 65537.0])), rng.choice([0.1, 2.5]), jnp.full((2,), 0.1)]
+            narrow = jnp.asarray(np.array([0.5, -1.25], dtype=np.float16))
+        extra = rng.sample(weak, rng.choice([1, 2]))
+        tree = [narrow, *extra] + (jl[:1] if rng.random() < 0.5 and jl else [])
+        rng.shuffle(tree)
+        # a leaf's own value is what JAX makes of it on its own (a Python float is a float32 without x64)
+        check('jax', ojax.tree_ravel, tree, np.asarray, canon=lambda x: np.asarray(jnp.asarray(x)))
+    except ImportError:
+        pass
+    return fails
 
 
 def oracle(impl, o):
@@ -70,6 +163,8 @@ def oracle(impl, o):
     import numpy as np
     import optree
     import ravel_impl
+    if 'wide' in o:
+        return _wide(o)
     fails = []
     arrs = parse(o['arrs'])
     np_leaves = [ravel_impl.mk(a) for a in arrs]
